@@ -9,6 +9,7 @@ import (
 	"go/ast"
 	"go/token"
 	"go/types"
+	"strings"
 )
 
 type modset struct {
@@ -16,14 +17,30 @@ type modset struct {
 	vars   map[*types.Var]bool
 	whole  map[*types.Var]bool // assigned as a whole (not only element writes)
 	calls  map[string]bool
+	traces map[string]bool
+	cells  map[string]map[*types.Var]bool // key -> pointer variables through which only that cell is written
+	sites  []callSite
+	ctypes map[string]types.Type
+}
+
+type callSite struct {
+	key  string
+	recv ast.Expr
+	args []ast.Expr
 }
 
 func newModset() *modset {
-	return &modset{fields: map[string]types.Type{}, vars: map[*types.Var]bool{}, whole: map[*types.Var]bool{}, calls: map[string]bool{}}
+	return &modset{fields: map[string]types.Type{}, vars: map[*types.Var]bool{}, whole: map[*types.Var]bool{}, calls: map[string]bool{}, traces: map[string]bool{}, cells: map[string]map[*types.Var]bool{}}
 }
 
 func (m *modset) union(o *modset) bool {
 	ch := false
+	for k := range o.traces {
+		if !m.traces[k] {
+			m.traces[k] = true
+			ch = true
+		}
+	}
 	for k, t := range o.fields {
 		if _, ok := m.fields[k]; !ok {
 			m.fields[k] = t
@@ -38,6 +55,9 @@ func (e *Engine) buildModsets() {
 	for k, fd := range e.funcs {
 		ms := newModset()
 		e.scanMods(fd.Body, ms)
+		for ck := range ms.cells {
+			ms.fields[ck] = ms.ctypes[ck]
+		}
 		e.modsets[k] = ms
 	}
 	// contracts with an explicit assigns clause define the callee's effect
@@ -50,6 +70,28 @@ func (e *Engine) buildModsets() {
 		} else if con.Assumed {
 			if _, ok := e.funcs[k]; ok {
 				declared[k] = newModset()
+			}
+		}
+	}
+	// traces propagate through every function, declared assigns or not
+	for changed := true; changed; {
+		changed = false
+		for k, ms := range e.modsets {
+			if con := e.spec.Contracts[k]; con != nil && con.Assumed {
+				continue
+			}
+			for callee := range ms.calls {
+				if con := e.spec.Contracts[callee]; con != nil && con.Assumed {
+					continue
+				}
+				if cm := e.modsets[callee]; cm != nil {
+					for t := range cm.traces {
+						if !ms.traces[t] {
+							ms.traces[t] = true
+							changed = true
+						}
+					}
+				}
 			}
 		}
 	}
@@ -75,6 +117,9 @@ func (e *Engine) buildModsets() {
 	for k, d := range declared {
 		d.calls = e.modsets[k].calls
 		d.vars = e.modsets[k].vars
+		if !e.spec.Contracts[k].Assumed {
+			d.traces = e.modsets[k].traces
+		}
 		e.modsets[k] = d
 	}
 }
@@ -220,13 +265,27 @@ func (e *Engine) recordCall(call *ast.CallExpr, ms *modset) {
 		case *types.Func:
 			if k, ok := e.fobjs[o]; ok {
 				ms.calls[k] = true
+				ms.sites = append(ms.sites, callSite{key: k, args: call.Args})
+				if con := e.spec.Contracts[k]; con != nil && con.Traced {
+					ms.traces[k] = true
+				}
 			}
 		}
 	case *ast.SelectorExpr:
 		if sel, ok := e.info.Selections[f]; ok {
+			// func-typed field or interface method with a traced contract
+			if key := e.externalKey(sel); key != "" {
+				if con := e.spec.Contracts[key]; con != nil && con.Traced {
+					ms.traces[key] = true
+				}
+			}
 			if fn, ok := sel.Obj().(*types.Func); ok {
 				if k, ok := e.fobjs[fn]; ok {
 					ms.calls[k] = true
+					ms.sites = append(ms.sites, callSite{key: k, recv: f.X, args: call.Args})
+					if con := e.spec.Contracts[k]; con != nil && con.Traced {
+						ms.traces[k] = true
+					}
 					// pointer-receiver method on an addressable struct local:
 					// the local (and its heap image) may change
 					if id, ok := ast.Unparen(f.X).(*ast.Ident); ok {
@@ -300,7 +359,18 @@ func (e *Engine) recordWriteE(lhs ast.Expr, ms *modset, define bool, elem bool) 
 			if i == len(path)-1 {
 				if e.isHeapStruct(cur) {
 					// through a pointer, or a struct local that may live in the heap
-					ms.fields[heapKey(structName(cur), f.Name())] = f.Type()
+					k := heapKey(structName(cur), f.Name())
+					if id, ok := ast.Unparen(x.X).(*ast.Ident); ok && viaPtr && len(path) == 1 {
+						if v, ok := e.info.Uses[id].(*types.Var); ok {
+							if ms.cells[k] == nil {
+								ms.cells[k] = map[*types.Var]bool{}
+							}
+							ms.cells[k][v] = true
+							ms.cellTypes(k, f.Type())
+							return
+						}
+					}
+					ms.fields[k] = f.Type()
 				}
 				if !viaPtr && len(path) == 1 {
 					e.recordWrite(x.X, ms, false)
@@ -317,8 +387,67 @@ func (e *Engine) recordWriteE(lhs ast.Expr, ms *modset, define bool, elem bool) 
 func (e *Engine) loopMods(c *FuncCtx, n ast.Node) ([]*types.Var, *modset) {
 	ms := newModset()
 	e.scanMods(n, ms)
-	for callee := range ms.calls {
-		ms.union(e.modsetOf(callee))
+	for _, site := range ms.sites {
+		con := e.spec.Contracts[site.key]
+		callee := e.modsetOf(site.key)
+		for t := range callee.traces {
+			ms.traces[t] = true
+		}
+		if con == nil || len(con.clauses("assigns")) == 0 {
+			for k, t := range callee.fields {
+				ms.fields[k] = t
+			}
+			continue
+		}
+		// declared assigns: map header names to the call-site expressions
+		hdr := map[string]ast.Expr{}
+		if con.Decl.Recv != nil && len(con.Decl.Recv.List) == 1 && len(con.Decl.Recv.List[0].Names) == 1 && site.recv != nil {
+			hdr[con.Decl.Recv.List[0].Names[0].Name] = site.recv
+		}
+		i := 0
+		if con.Decl.Type.Params != nil {
+			for _, f := range con.Decl.Type.Params.List {
+				for _, nm := range f.Names {
+					if i < len(site.args) {
+						hdr[nm.Name] = site.args[i]
+					}
+					i++
+				}
+			}
+		}
+		fd := e.funcs[site.key]
+		keys := e.assignsKeys(con, fd)
+		for _, cl := range con.clauses("assigns") {
+			for _, ex := range cl.Assigns {
+				sel, ok := ex.(*ast.SelectorExpr)
+				if !ok {
+					continue
+				}
+				base, isId := sel.X.(*ast.Ident)
+				var v *types.Var
+				if isId {
+					if ce, ok := hdr[base.Name]; ok {
+						if id, ok := ast.Unparen(ce).(*ast.Ident); ok {
+							v, _ = e.info.Uses[id].(*types.Var)
+						}
+					}
+				}
+				// find the key this location denotes
+				for k, t := range keys.fields {
+					if strings.HasSuffix(k, "."+sel.Sel.Name) {
+						if v != nil {
+							if ms.cells[k] == nil {
+								ms.cells[k] = map[*types.Var]bool{}
+							}
+							ms.cells[k][v] = true
+							ms.cellTypes(k, t)
+						} else {
+							ms.fields[k] = t
+						}
+					}
+				}
+			}
+		}
 	}
 	body := n
 	switch x := n.(type) {
@@ -344,4 +473,47 @@ func (e *Engine) loopMods(c *FuncCtx, n ast.Node) ([]*types.Var, *modset) {
 		}
 	}
 	return vars, ms
+}
+
+// externalKey names a call through a func-typed field ("Parser.CommandHandler")
+// or an interface method ("Commander.Execute").
+func (e *Engine) externalKey(sel *types.Selection) string {
+	switch o := sel.Obj().(type) {
+	case *types.Var:
+		if _, ok := under(o.Type()).(*types.Signature); !ok {
+			return ""
+		}
+		cur := sel.Recv()
+		path := sel.Index()
+		for _, idx := range path[:len(path)-1] {
+			cur = stepType(cur, idx)
+		}
+		return structName(cur) + "." + o.Name()
+	case *types.Func:
+		if _, ok := e.fobjs[o]; ok {
+			return ""
+		}
+		cur := sel.Recv()
+		path := sel.Index()
+		for _, idx := range path[:len(path)-1] {
+			cur = stepType(cur, idx)
+		}
+		if n, ok := cur.(*types.Named); ok {
+			if _, isIface := n.Underlying().(*types.Interface); isIface {
+				pk := ""
+				if n.Obj().Pkg() != nil && n.Obj().Pkg() != e.pkg.Types {
+					pk = n.Obj().Pkg().Name() + "."
+				}
+				return pk + n.Obj().Name() + "." + o.Name()
+			}
+		}
+	}
+	return ""
+}
+
+func (m *modset) cellTypes(k string, t types.Type) {
+	if m.ctypes == nil {
+		m.ctypes = map[string]types.Type{}
+	}
+	m.ctypes[k] = t
 }
